@@ -2,6 +2,7 @@ package main
 
 import (
 	"go/token"
+	"go/types"
 	"strings"
 
 	"golang.org/x/tools/go/ssa"
@@ -103,6 +104,86 @@ func runParsePure(rc *RuleCtx) {
 				}
 				o := rc.bad(fn, "store "+g.Name(), ins.Pos(), "package-level variable "+g.Pkg.Pkg.Name()+"."+g.Name()+" is written while parsing an IDL: a later parse can observe what an earlier one left there")
 				o.Path = chain
+			}
+		}
+	}
+	// a package-level map handed to a callee that updates it (the memo is passed down as a parameter)
+	mut := map[*ssa.Function]map[int]bool{}
+	for changed := true; changed; {
+		changed = false
+		for _, fn := range w.Funcs {
+			if fn.Blocks == nil {
+				continue
+			}
+			for i, p := range fn.Params {
+				if mut[fn][i] {
+					continue
+				}
+				if _, isMap := p.Type().Underlying().(*types.Map); !isMap {
+					continue
+				}
+				hit := false
+				for _, r := range *p.Referrers() {
+					switch x := r.(type) {
+					case *ssa.MapUpdate:
+						if x.Map == p {
+							hit = true
+						}
+					case ssa.CallInstruction:
+						if cal := x.Common().StaticCallee(); cal != nil {
+							for ai, a := range x.Common().Args {
+								if a == p && mut[cal][ai] {
+									hit = true
+								}
+							}
+						}
+					}
+				}
+				if hit {
+					if mut[fn] == nil {
+						mut[fn] = map[int]bool{}
+					}
+					mut[fn][i] = true
+					changed = true
+				}
+			}
+		}
+	}
+	for fn := range parent {
+		root := fn
+		for root.Parent() != nil {
+			root = root.Parent()
+		}
+		if root.Pkg == nil || !inRepo(root.Pkg.Pkg.Path()) {
+			continue
+		}
+		for _, b := range fn.Blocks {
+			for _, ins := range b.Instrs {
+				c, ok := ins.(ssa.CallInstruction)
+				if !ok {
+					continue
+				}
+				cal := c.Common().StaticCallee()
+				if cal == nil {
+					continue
+				}
+				for ai, a := range c.Common().Args {
+					if !mut[cal][ai] {
+						continue
+					}
+					ld, ok := a.(*ssa.UnOp)
+					if !ok {
+						continue
+					}
+					g, ok := ld.X.(*ssa.Global)
+					if !ok || g.Pkg == nil || !inRepo(g.Pkg.Pkg.Path()) {
+						continue
+					}
+					if !w.isControlFn(fn) {
+						nsites++
+					}
+					rc.bad(fn, "global map "+g.Name()+" -> "+cal.Name(), ins.Pos(), "the package-level map "+g.Pkg.Pkg.Name()+"."+g.Name()+" is handed to "+cal.Name()+", which stores into it, while parsing an IDL: a later parse can observe what an earlier one left there")
+				}
 			}
 		}
 	}
